@@ -122,6 +122,10 @@ def step (s : St) : List String → St × String
   | ["mode", "seq"] => ({ s with seq := true }, "ok")
   -- the harness re-uses symbol objects in this case; invisible to the model (symbols are ids)
   | ["mode", "reuse"] => (s, "ok")
+  -- the harness builds its table from several TableOptions / adds and removes hooks: the model has
+  -- one notification per activation, whatever the number of registered hooks
+  | "mode" :: "opts" :: _ => (s, "ok")
+  | ["hook", _, _] => (s, "ok")
   | "ins" :: ts =>
     match ts.mapM natTok with
     | none => (s, "bad-op")
